@@ -14,7 +14,7 @@ def run(ctx):
     Q.rule_c1(ctx, "R2c", sets)
     Q.rule_leaf_shapes(ctx, "R2s", m)
     component_flow(ctx, "R3")
-    netloc_template(ctx, "R6")
+    U.netloc_template(ctx, "R6")
     U.rule_qsl(ctx, "R7")
     # the cleaning pass runs on the raw url before parsing: it may only touch valid escapes / control characters
     Q.rule_upper_quoted(ctx, "R8")
@@ -118,32 +118,3 @@ def trailing_slash(ctx, rule, fn, path_term, site):
     ctx.ob(rule, fn + "/trailing-slash", not bad,
            "%s: normpath strips the trailing '/' and nothing restores it: http://a.com/b/ becomes http://a.com/b" % fn, site,
            witness="http://a.com/b/", sample="path sink: %s" % P.show(path_term, maxdepth=6)[:300])
-
-
-def netloc_template(ctx, rule):
-    ctx.rule(rule, "netloc template: unsplit_netloc, interpreted on marker values, yields [user][':'password]['@']host[':'port] for every presence pattern of its four arguments, with an IPv6 host re-bracketed")
-    repo = ctx.repo
-    utils = repo.mod("utils")
-    ref = utils.func("unsplit_netloc")
-    ctx.fn(ref.qualname)
-    site = utils.site(ref.node)
-    n = 0
-    for host, hexp in (("H", "H"), ("::1", "[::1]")):
-        for u in ("U", None):
-            for p in ("P", None):
-                for port in (8080, None):
-                    n += 1
-                    exp = hexp
-                    if u or p:
-                        exp = ((u or "") + (":" + p if p else "")) + "@" + exp
-                    if port:
-                        exp += ":8080"
-                    try:
-                        got = run_function(repo, ref, [u, p, host, port])
-                    except Unknown as e:
-                        ctx.undecided(rule, "unsplit_netloc not interpretable: %s" % e)
-                        return
-                    ctx.ob(rule, "unsplit_netloc/(%s,%s,%s,%s)" % (u, p, host, port), got == exp,
-                           "unsplit_netloc(%r, %r, %r, %r) gives %r, expected %r (RFC 3986 authority: [user[':'password]'@'] host [':'port], IPv6 literals bracketed)" % (u, p, host, port, got, exp), site,
-                           witness="http://%s%s" % ((":pw@" if not u and p else ""), "[::1]:8080/" if host != "H" else "a.com/"), sample="(%s,%s,%s,%s) -> %r" % (u, p, host, port, got))
-    ctx.require_instances(rule, n, 16, "presence patterns")
